@@ -50,6 +50,11 @@ type SUT interface {
 	Cleanup(h int)
 	Checkpoint() any
 	Revert(cp any)
+	// Lock gives k key flags without a value (a flags-only buffer entry): persistent = a flag that survives
+	// rollbacks (key locked), otherwise a flag a rollback clears. Invisible to every read.
+	Lock(k []byte, persistent bool) error
+	// SetLocked writes k = v and marks k locked; when the write is rolled back a flags-only entry is left behind.
+	SetLocked(k, v []byte) error
 	Close()
 }
 
@@ -89,10 +94,12 @@ const (
 	opCleanup
 	opCheckpoint
 	opRevert
+	opLock
+	opLockedSet
 	nOpKinds
 )
 
-var opNames = [...]string{"set", "delete", "get", "batchget", "iter", "iter-reverse", "staging", "release", "cleanup", "checkpoint", "revert"}
+var opNames = [...]string{"set", "delete", "get", "batchget", "iter", "iter-reverse", "staging", "release", "cleanup", "checkpoint", "revert", "lock", "locked-set"}
 
 func (k opKind) String() string { return opNames[k] }
 
@@ -122,8 +129,10 @@ func hx(b []byte) string {
 
 func (o op) String() string {
 	switch o.kind {
-	case opSet:
-		return fmt.Sprintf("set(%s,%s)", hx(o.key), hx(o.val))
+	case opSet, opLockedSet:
+		return fmt.Sprintf("%s(%s,%s)", o.kind, hx(o.key), hx(o.val))
+	case opLock:
+		return fmt.Sprintf("lock(%s,persistent=%v)", hx(o.key), o.cp == 1)
 	case opDel, opGet:
 		return fmt.Sprintf("%s(%s)", o.kind, hx(o.key))
 	case opBGet:
@@ -468,7 +477,8 @@ type runner struct {
 	where   map[string]any
 	maxDep  int
 	inFull  bool
-	cnt     map[string]int // flushed into the report once per sequence (the report's mutex is shared by all workers)
+	locked  map[string]bool // keys that carry a persistent flag in the buffer (flags are never rolled back)
+	cnt     map[string]int  // flushed into the report once per sequence (the report's mutex is shared by all workers)
 	evals   int
 }
 
@@ -804,6 +814,12 @@ func (x *runner) checkIter(rev bool, a, b []byte, fp bool) {
 		}
 		return !((len(a) > 0 && bytes.Compare(k, a) < 0) || (b != nil && bytes.Compare(k, b) >= 0))
 	}
+	if x.boundaryFlagsOnly(rev, a, b) {
+		x.count("iter_ends_on_flags_only_entry", 1)
+		if rev {
+			x.count("iter_reverse_ends_on_flags_only_entry", 1)
+		}
+	}
 	ovN, snapN, hidden, shadow, dangling := x.m.rangeMix(in)
 	if hidden > 0 {
 		x.count("iter_tombstone_hides_snapshot_key", 1)
@@ -823,7 +839,82 @@ func (x *runner) checkIter(rev bool, a, b []byte, fp bool) {
 	}
 }
 
+// bufLeaves lists the keys that have an entry in the buffer (valued, tombstone or flags-only), ascending.
+func (x *runner) bufLeaves() [][]byte {
+	seen := map[string]bool{}
+	var out [][]byte
+	for k := range x.m.ov {
+		seen[k] = true
+		out = append(out, []byte(k))
+	}
+	for k := range x.locked {
+		if !seen[k] {
+			out = append(out, []byte(k))
+		}
+	}
+	sort.Slice(out, func(i, j int) bool { return bytes.Compare(out[i], out[j]) < 0 })
+	return out
+}
+
+// flagsOnly lists the buffer entries that have (persistent) flags but no value.
+func (x *runner) flagsOnly() [][]byte {
+	var out [][]byte
+	for k := range x.locked {
+		if _, ok := x.m.ov[k]; !ok {
+			out = append(out, []byte(k))
+		}
+	}
+	sort.Slice(out, func(i, j int) bool { return bytes.Compare(out[i], out[j]) < 0 })
+	return out
+}
+
+// lockBound picks a bound relative to a flags-only key f: f, f+00, or the successor / predecessor of f among
+// the buffer's entries (and those +00), so that f is the first or last buffer entry inside the scanned range.
+func (x *runner) lockBound() []byte {
+	fo := x.flagsOnly()
+	if len(fo) == 0 {
+		return nil
+	}
+	f := fo[x.rng.Intn(len(fo))]
+	leaves := x.bufLeaves()
+	i := sort.Search(len(leaves), func(i int) bool { return bytes.Compare(leaves[i], f) >= 0 })
+	var b []byte
+	switch x.rng.Intn(6) {
+	case 0:
+		b = f
+	case 1, 2:
+		b = cat(f, []byte{0})
+	case 3:
+		if i+1 < len(leaves) {
+			b = leaves[i+1]
+		} else {
+			b = cat(f, []byte{0})
+		}
+	case 4:
+		if i > 0 {
+			b = cat(leaves[i-1], []byte{0})
+		} else {
+			b = f
+		}
+	case 5:
+		if i > 0 {
+			b = leaves[i-1]
+		} else {
+			b = f
+		}
+	}
+	if len(b) == 0 {
+		return nil
+	}
+	return b
+}
+
 func (x *runner) pickBound(allowEmptyNonNil bool) []byte {
+	if len(x.locked) > 0 && x.rng.Intn(10) < 4 {
+		if b := x.lockBound(); b != nil {
+			return b
+		}
+	}
 	switch n := x.rng.Intn(10); {
 	case n < 2:
 		return nil
@@ -867,7 +958,7 @@ func (x *runner) pickVal() []byte {
 	return v
 }
 
-var weights = [nOpKinds]int{opSet: 22, opDel: 10, opGet: 6, opBGet: 5, opIter: 11, opRIter: 11, opStaging: 7, opRelease: 5, opCleanup: 7, opCheckpoint: 7, opRevert: 9}
+var weights = [nOpKinds]int{opSet: 22, opDel: 10, opGet: 6, opBGet: 5, opIter: 11, opRIter: 11, opStaging: 7, opRelease: 5, opCleanup: 7, opCheckpoint: 7, opRevert: 9, opLock: 8, opLockedSet: 5}
 
 func (x *runner) genOp() op {
 	w := weights
@@ -888,8 +979,14 @@ func (x *runner) genOp() op {
 		}
 		o := op{kind: k}
 		switch k {
-		case opSet:
+		case opSet, opLockedSet:
 			o.key, o.val = x.pickKey(), x.pickVal()
+		case opLock:
+			o.key = x.pickKey()
+			o.cp = 1
+			if x.rng.Intn(5) == 0 {
+				o.cp = 0 // a flag that a rollback clears
+			}
 		case opDel:
 			o.key = x.pickKey()
 			if x.rng.Intn(10) < 6 && len(x.m.view) > 0 {
@@ -970,6 +1067,15 @@ func (x *runner) step(o op) {
 		case opSet:
 			err = x.sut.Set(o.key, o.val)
 			x.m.write(o.key, o.val)
+		case opLockedSet:
+			err = x.sut.SetLocked(o.key, o.val)
+			x.m.write(o.key, o.val)
+			x.lockKey(o.key)
+		case opLock:
+			err = x.sut.Lock(o.key, o.cp == 1)
+			if o.cp == 1 {
+				x.lockKey(o.key)
+			}
 		case opDel:
 			err = x.sut.Delete(o.key)
 			if _, ok := x.m.snap[string(o.key)]; ok {
@@ -1017,6 +1123,61 @@ func (x *runner) step(o op) {
 		return
 	}
 	x.fullCheck()
+}
+
+func (x *runner) lockKey(k []byte) {
+	if x.locked == nil {
+		x.locked = map[string]bool{}
+	}
+	x.locked[string(k)] = true
+}
+
+// boundaryFlagsOnly reports whether a flags-only entry is the last buffer entry inside the scanned range (in scan
+// direction) while valued buffer entries lie beyond that end of the range — the shape in which a buffer iterator
+// has to recognise its end on a value-less entry.
+func (x *runner) boundaryFlagsOnly(rev bool, a, b []byte) bool {
+	if len(x.locked) == 0 {
+		return false
+	}
+	var lo, hi []byte // range [lo, hi)
+	if rev {
+		lo, hi = b, a
+	} else {
+		lo, hi = a, b
+	}
+	in := func(k []byte) bool {
+		return (len(lo) == 0 || bytes.Compare(k, lo) >= 0) && (hi == nil || bytes.Compare(k, hi) < 0)
+	}
+	leaves := x.bufLeaves()
+	var last []byte
+	beyond := false
+	if !rev {
+		for _, k := range leaves {
+			if in(k) {
+				last = k
+			} else if hi != nil && bytes.Compare(k, hi) >= 0 {
+				if v := x.m.ov[string(k)]; len(v) > 0 {
+					beyond = true
+				}
+			}
+		}
+	} else {
+		for i := len(leaves) - 1; i >= 0; i-- {
+			k := leaves[i]
+			if in(k) {
+				last = k
+			} else if len(lo) > 0 && bytes.Compare(k, lo) < 0 {
+				if v := x.m.ov[string(k)]; len(v) > 0 {
+					beyond = true
+				}
+			}
+		}
+	}
+	if last == nil || !beyond {
+		return false
+	}
+	_, valued := x.m.ov[string(last)]
+	return !valued && x.locked[string(last)]
 }
 
 func (x *runner) finish() {
@@ -1113,15 +1274,17 @@ var ExKeys = [][]byte{[]byte("a"), {'a', 0x00}, []byte("b"), {0xff}}
 // {set k "1", set k "2" (same length), delete k : k in ExKeys} + {staging,
 // release, cleanup, checkpoint, revert-newest, revert-oldest} on the snapshot
 // {a: "s0", b: "s2"} and, at the end of each, every iteration bound pair out
-// of {nil} + ExKeys + {a 00 00}.
+// of {nil} + ExKeys + {a 00 00, b 00}; {lock a00, lock b} leave flags-only buffer entries.
 func RunExhaustive(r *vrep.Report, cfg Config, wf WorldFactory, depth int) {
 	snap := map[string][]byte{string(ExKeys[0]): []byte("s0"), string(ExKeys[2]): []byte("s2")}
 	uni := ExKeys
-	bounds := append(append([][]byte{}, ExKeys...), []byte{'a', 0, 0})
+	bounds := append(append([][]byte{}, ExKeys...), []byte{'a', 0, 0}, []byte{'b', 0})
 	var choices []op
 	for _, k := range ExKeys {
 		choices = append(choices, op{kind: opSet, key: k, val: []byte("1")}, op{kind: opSet, key: k, val: []byte("2")}, op{kind: opDel, key: k})
 	}
+	// lock (flags-only entry) for one key outside the snapshot and one inside it
+	choices = append(choices, op{kind: opLock, key: ExKeys[1], cp: 1}, op{kind: opLock, key: ExKeys[2], cp: 1})
 	choices = append(choices, op{kind: opStaging}, op{kind: opRelease}, op{kind: opCleanup}, op{kind: opCheckpoint},
 		op{kind: opRevert, cp: -1}, op{kind: opRevert, cp: -2})
 	world, err := wf(snap, uni, vrep.Rand(cfg.Stream+"/ex"))
@@ -1160,7 +1323,7 @@ func RunExhaustive(r *vrep.Report, cfg Config, wf WorldFactory, depth int) {
 				return false
 			}
 			switch c.kind {
-			case opSet:
+			case opSet, opLockedSet:
 				m.write(c.key, c.val)
 			case opDel:
 				m.write(c.key, nil)
